@@ -850,7 +850,11 @@ func (p *Policy) sanitizeStyles(attr html.Attribute, elementName string) html.At
 decLoop:
 	for _, dec := range decs {
 		tempProperty := strings.ToLower(dec.Property)
-		tempValue := removeUnicode(strings.ToLower(dec.Value))
+		tempValue, decoded := removeUnicode(strings.ToLower(dec.Value))
+		if !decoded {
+			// an escape that cannot be decoded: nothing to judge the value on
+			continue
+		}
 		for _, i := range prefixes {
 			tempProperty = strings.TrimPrefix(tempProperty, i)
 		}
@@ -1081,7 +1085,7 @@ func isDataAttribute(val string) bool {
 	return true
 }
 
-func removeUnicode(value string) string {
+func removeUnicode(value string) (string, bool) {
 	substitutedValue := value
 	currentLoc := cssUnicodeChar.FindStringIndex(substitutedValue)
 	for currentLoc != nil {
@@ -1104,12 +1108,12 @@ func removeUnicode(value string) string {
 		translatedChar, err := strconv.Unquote(`"` + character + `"`)
 		translatedChar = strings.TrimSpace(translatedChar)
 		if err != nil {
-			return ""
+			return "", false
 		}
 		substitutedValue = substitutedValue[0:currentLoc[0]] + translatedChar + substitutedValue[currentLoc[1]:]
 		currentLoc = cssUnicodeChar.FindStringIndex(substitutedValue)
 	}
-	return substitutedValue
+	return substitutedValue, true
 }
 
 func (p *Policy) matchRegex(elementName string) (map[string][]attrPolicy, bool) {
